@@ -9,9 +9,9 @@
 
 #include "Point.h"
 
-ezc3d::DataNS::Points3dNS::Point::Point(const std::string &name) :
-    _name(name)
+ezc3d::DataNS::Points3dNS::Point::Point(const std::string &name)
 {
+    this->name(name); // removes the trailing spaces, as naming the point afterwards does
     _data.resize(4);
 }
 
